@@ -711,6 +711,11 @@ func (env *SpecEnv) call(x SCall) Val {
 			return v
 		}
 		if v.Sort == sSlice {
+			if boundVarRe.MatchString(v.S) {
+				// under a quantifier: no global definitions, inline the term
+				k, hs := memKey(sInt)
+				return Val{S: fmt.Sprintf("(str_of %s (sl_arr %s) (sl_off %s) (sl_len %s))", env.vc.getHeap(env.st, k, hs), v.S, v.S, v.S), Sort: sStr, T: types.Typ[types.String]}
+			}
 			return Val{S: a.bytesStr(env.st, v), Sort: sStr, T: types.Typ[types.String]}
 		}
 		env.fail("bytes() of sort %s", v.Sort)
